@@ -365,6 +365,42 @@ func (fc *FnCtx) heapSym(st *State, key, sort string) string {
 }
 
 // havocAll forgets everything about the heap except stable keys.
+// keepLocals saves the content of the locals whose address never leaves the function (go/ssa:
+// Alloc.Heap == false; only direct loads and stores), which no callee can reach, and returns a
+// function that writes it back after a havoc.
+func (fc *FnCtx) keepLocals(st *State) func() {
+	type kept struct {
+		p PtrV
+		t types.Type
+		v Val
+	}
+	var keep []kept
+	for sv, v := range fc.vals {
+		a, ok := sv.(*ssa.Alloc)
+		if !ok || a.Heap {
+			continue
+		}
+		p, ok := v.(PtrV)
+		if !ok || len(p.Path) != 0 || (p.Kind != PObj && p.Kind != PArr) {
+			continue
+		}
+		t := a.Type().Underlying().(*types.Pointer).Elem()
+		func() {
+			defer func() { recover() }()
+			keep = append(keep, kept{p, t, fc.load(st, p, t)})
+		}()
+	}
+	sort.Slice(keep, func(i, j int) bool { return keep[i].p.Ref < keep[j].p.Ref })
+	return func() {
+		for _, k := range keep {
+			func() {
+				defer func() { recover() }()
+				fc.store(st, k.p, k.t, k.v)
+			}()
+		}
+	}
+}
+
 func (fc *FnCtx) havocAll(st *State) {
 	// Locals whose address never leaves the function (go/ssa: Alloc.Heap == false; only direct
 	// loads and stores) cannot be reached by any callee: they keep their value.
